@@ -193,6 +193,13 @@ def plan(tier, seed):
         hs.append(gen("u8", sform, shape, ("S",), (0,), "accept", "thorough"))
         hs.append(gen("u8", sform, shape, ("V",), (2,), "accept", "thorough"))
     hs = [h for h in hs if h is not None]
+    for h in hs:
+        forms_ = h.key.split("/")[2]
+        two_d = h.key.split("/")[0] in set(DISPATCH_2D.values())
+        if "B" in forms_ and (h.domain == "accept" or two_d):
+            h.tier = "off"
+            h.off_reason = ("logical-mask read whose result length is the (symbolic) number of true bits: CBMC ran out of 9 GB in the "
+                            "propositional reduction / no verdict in 900 s (measured 2026-09-24)")
     src = read_repo("src/interpreter/src/stdlib/access/matrix.rs")
     prelude, extracted = "", {}
     for fx in sorted(set(list(DISPATCH_1D.values()) + list(DISPATCH_2D.values()))):
@@ -208,7 +215,8 @@ def plan(tier, seed):
                        "values, index vectors and mask bits symbolic",
         "bounds": "sources 1x3, 3x1, 2x2, 2x3; index vectors of length 2, masks of length dim-1/dim/dim+1, at most %d selected positions "
                   "per dimension; element kinds f64 (u8 for scalar/vector forms, thorough)" % MAXSEL,
-        "outside": ["subscript(): syntax -> index Values (as_index conversions, range evaluation)", "the `Vec<Value>` parameter of the dispatch functions: their bodies are copied verbatim with `ixes: &[Value]` (see extract_dispatch_fn)", "sources larger than 2x3",
+        "outside": ["logical-mask reads that are accepted, and every 2-D form with a mask: no verdict (see excluded_no_verdict); only the rejection of 1-D masks of "
+                    "the wrong length is decided", "subscript(): syntax -> index Values (as_index conversions, range evaluation)", "the `Vec<Value>` parameter of the dispatch functions: their bodies are copied verbatim with `ixes: &[Value]` (see extract_dispatch_fn)", "sources larger than 2x3",
                     "swizzle / dot access / tables / maps / tuples", "fixed-size storage forms", "the NativeFunctionCompiler wrappers"],
         "caps": {"quick_timeout": 900, "thorough_timeout": 2400, "heavy_jobs": 6, "heavy_rss_gb": 9},
     }
